@@ -192,8 +192,6 @@ def gen_value(rng, fd, missing=0.12):
                 x = sci_boundary_value(rng, dd)
                 if abs(x) < 2.3e-308 or sci_rounding_overflows(x, dd):
                     x = 2.5   # subnormals / overflow on rounding: C01's own stream (recorded findings there)
-            if not libm_log10_exact(x):
-                x = 1.0   # the C library's log10 is not modelled: C01's own stream
             return ["float", f2b(x)]
         intw = max(1, n - dd - 2)
         if c < 0.25:
